@@ -8,6 +8,11 @@ VERIF = os.path.dirname(os.path.dirname(os.path.abspath(__file__)))
 BASELINE_OFF = "/verif/tool/baseline.sh"
 
 CLAIMED = {
+    "C06": dict(
+        technique="static analysis: dimension inference (L, M, T exponents) over the COMPDAT/COMPTRAJ code and the Peaceman helpers seeded from the keyword item dimensions, dataflow shape rule on the replace-in-place branch, per-path add-count rule on the connection-set rebuild loops (clang AST)",
+        text="Claimed narrowly. Decides three structural clauses: (a) every assignment to r0, rw, re, Kh, CF, Ke, connection length and the Peaceman denominator, every + / - / comparison and every log/exp argument in loadCOMPDAT, loadCOMPTRAJ, effectiveRadius, peacemanDenominator, effectiveExtent and inverse_peaceman is dimensionally homogeneous; (b) re-entering COMPDAT/COMPTRAJ overwrites exactly the found element and carries completion number, sort value, segment and perforation range over, and nothing else modifies the container; (c) each of the 8 Well functions that rebuild the connection set adds every connection exactly once on every path through the loop body, in order, with the old ordering mode and well head. NOT decided: the numeric relation CF (ln(r0/rw)+S) = 2 pi Kh, the constant 0.28, the direction permutation, equality of explicit and computed values - a dimensionally consistent wrong formula passes.",
+        note="Trusted: dimension table in rules/C06.py; numeric literals are dimension-polymorphic.",
+        design="DESIGN.md §4 C06"),
     "C13": dict(
         technique="static analysis: effect analysis of the OpenMP parallel-for (stores and callee closure), cache-coherence / co-update rule on the index maps, shape rule on resetACTNUM, writer/reader table agreement for EGRID (clang AST)",
         text="Decides three structural clauses: (a) thread-count independence of the cell volumes - every iteration of the (only) OpenMP loop stores only to its own element or loop-local variables and its callee closure (depth 3) consists of const members and functions without static, global or mutable writes; (b) whoever writes one of ACTNUM / active count / active->global / global->active writes all four and invalidates the cached volumes, geometry writers outside construction invalidate the cache, and resetACTNUM builds mutually inverse maps (count-before-increment, -1 for inactive cells, every cell visited); (c) every EGRID array the readers require is written by EclipseGrid::save with the same element type and lengths cross from_si on save and to_si on load. Not decided: volumes, centres, depths, equivalence of input forms, additivity (numeric).",
